@@ -264,6 +264,10 @@ class Sweep:
          {'a': 2, 'b': 4, 'c': 5}, {'a': 2, 'b': 4, 'c': 6}]
 
         """
+        if not self.items or any(isinstance(o, Sweep) and not o.items for o in others):
+            # A sweep without items has no combinations, and neither has a product with it
+            return Sweep({})
+
         items = self.items.copy()
         dims = self.dims.copy() if self.dims is not None else None
 
